@@ -579,3 +579,15 @@ _FOLD_OLD = "    for sibling_node in reversed(branch):\n        if path & target
 V("silent-calc-root-enumerate-shift", "C14", SM, _FOLD_OLD, "    for bit_index, sibling_node in enumerate(reversed(branch)):\n        if (path >> bit_index) & 1:\n            node_hash = keccak(sibling_node + node_hash)\n        else:\n            node_hash = keccak(node_hash + sibling_node)\n", expect="silent", props=["C14", "C15"])
 V("c14-calc-root-enumerate-shift-swapped", "C14", SM, _FOLD_OLD, "    for bit_index, sibling_node in enumerate(reversed(branch)):\n        if (path >> bit_index) & 1:\n            node_hash = keccak(node_hash + sibling_node)\n        else:\n            node_hash = keccak(sibling_node + node_hash)\n", rule="SIB5")
 V("c14-calc-root-enumerate-not-reversed", "C14", SM, _FOLD_OLD, "    for bit_index, sibling_node in enumerate(branch):\n        if (path >> bit_index) & 1:\n            node_hash = keccak(sibling_node + node_hash)\n        else:\n            node_hash = keccak(node_hash + sibling_node)\n", expect="inconclusive")
+
+# contextlib.suppress as try / except pass: right and wrong
+_EX_OLD = "        try:\n            self.get(key)\n            return True\n        except KeyError:\n            return False\n"
+_EX_IMP = (SM, "from typing import (", "import contextlib\nfrom typing import (")
+V("silent-smt-exists-suppress", "C14", SM, _EX_OLD, "", expect="silent", props=["C14", "C15", "C18"],
+  edits=[(SM, _EX_OLD, "        with contextlib.suppress(KeyError):\n            self.get(key)\n            return True\n        return False\n"), _EX_IMP])
+V("c14-smt-exists-suppress-inverted", "C14", SM, _EX_OLD, "", rule="SIB1",
+  edits=[(SM, _EX_OLD, "        with contextlib.suppress(KeyError):\n            self.get(key)\n            return False\n        return True\n"), _EX_IMP])
+# a loop over a display of the two parameters instead of two statement pairs: right, and with one of the two forgotten
+_EBN_OLD = "    validate_is_bytes(left_child_node_hash)\n    validate_length(left_child_node_hash, 32)\n    validate_is_bytes(right_child_node_hash)\n    validate_length(right_child_node_hash, 32)\n"
+V("silent-encode-branch-display-loop", "C18", "trie/utils/nodes.py", _EBN_OLD, "    for child_node_hash in (left_child_node_hash, right_child_node_hash):\n        validate_is_bytes(child_node_hash)\n        validate_length(child_node_hash, 32)\n", expect="silent", props=["C18", "C16", "C12"])
+V("c18-encode-branch-display-loop-one-only", "C18", "trie/utils/nodes.py", _EBN_OLD, "    for child_node_hash in (left_child_node_hash,):\n        validate_is_bytes(child_node_hash)\n        validate_length(child_node_hash, 32)\n")
